@@ -218,6 +218,30 @@ def gen_opcodes(repo, gendir):
                    'Definition sub_guard : bool := %s.\n' % ('true' if shape == _fn(_SRC_SUB_GUARD) else 'false'))
     except (Refused, SyntaxError, OSError) as e:
         errors.append({'target': 'Gen_opcodes', 'error': 'dead code elimination: %s' % e})
+    # ---- SynthDesc._read_synthdef2: is the build context reset in a `finally:` clause?
+    try:
+        tree = ast.parse(open(os.path.join(repo, 'sc3/synth/synthdesc.py')).read())
+        fd = None
+        for n in tree.body:
+            if isinstance(n, ast.ClassDef) and n.name == 'SynthDesc':
+                for m in n.body:
+                    if isinstance(m, ast.FunctionDef) and m.name == '_read_synthdef2':
+                        fd = m
+        if fd is None:
+            raise Refused('SynthDesc._read_synthdef2 not found')
+        body = _strip_doc(fd).body
+        reset = "Assign(targets=[Attribute(value=Attribute(value=Name(id='_libsc3', ctx=Load()), attr='main', ctx=Load()), attr='_current_synthdef', ctx=Store())], value=Constant(value=None))"
+        lock = "Attribute(value=Attribute(value=Name(id='_libsc3', ctx=Load()), attr='main', ctx=Load()), attr='_def_build_lock', ctx=Load())"
+        if not (len(body) == 1 and isinstance(body[0], ast.With) and len(body[0].items) == 1
+                and _dump(body[0].items[0].context_expr) == lock and len(body[0].body) == 1
+                and isinstance(body[0].body[0], ast.Try)):
+            raise Refused('_read_synthdef2 is not `with main._def_build_lock: try: ...`')
+        tr = body[0].body[0]
+        fin = (not tr.handlers and not tr.orelse and len(tr.finalbody) == 1 and _dump(tr.finalbody[0]) == reset)
+        out.append('(* SynthDesc._read_synthdef2 resets main._current_synthdef in a `finally:` clause *)\n'
+                   'Definition desc_read_finally : bool := %s.\n' % ('true' if fin else 'false'))
+    except (Refused, SyntaxError, OSError) as e:
+        errors.append({'target': 'Gen_opcodes', 'error': 'description reader: %s' % e})
     _write(os.path.join(gendir, 'Gen_opcodes.v'), '\n'.join(out))
     return errors
 
